@@ -419,6 +419,49 @@ Proof.
     rewrite z_tr_loop_noplan in H. zinv H. reflexivity.
 Qed.
 
+(* HISTORY INDEPENDENCE: whatever happened before (faults, retries, other objects), an access to i that returns,
+   returns the same array *)
+Lemma z_spec_access_ok : forall w, z_wf w -> forall plan c i c' o lg, z_cache_ok w c ->
+  z_spec_access getitem (List.length w) w plan c i = (c', o, lg) ->
+  z_cache_ok w c' /\ (forall a, o = ZRet a -> z_pure getitem (List.length w) w i = Some a).
+Proof.
+  intros w W plan c i c' o lg OK H.
+  destruct (nth_error w i) eqn:N.
+  - eapply z_spec_value; eauto. apply nth_error_Some. congruence.
+  - rewrite z_spec_access_outside in H by auto. zinv H. split; auto. discriminate.
+Qed.
+
+Lemma z_spec_request_ok : forall w, z_wf w -> forall plan objs c c' res, z_cache_ok w c ->
+  z_spec_request getitem w plan c objs = (c', res) -> z_cache_ok w c'.
+Proof.
+  intros w W plan. induction objs as [|i r IH]; intros c c' res OK H; simpl in H.
+  - zinv H; auto.
+  - destruct (z_spec_access getitem (List.length w) w plan c i) as [[c1 o] lg] eqn:E.
+    destruct (z_spec_access_ok w W _ _ _ _ _ _ OK E) as [OK1 _].
+    destruct o; try (zinv H; auto; fail).
+    destruct (z_spec_request getitem w plan c1 r) as [c2 rest] eqn:E2. zinv H. eapply IH; eauto.
+Qed.
+
+Lemma z_spec_after_ok : forall w, z_wf w -> forall hist c, z_cache_ok w c -> z_cache_ok w (z_spec_after w c hist).
+Proof.
+  intros w W. induction hist as [|[objs plan] r IH]; intros c OK; simpl; auto.
+  apply IH. destruct (z_spec_request getitem w plan c objs) as [c' res] eqn:E. simpl.
+  eapply z_spec_request_ok; eauto.
+Qed.
+
+Theorem z_spec_history_independent : forall w, z_wf w -> forall h1 h2 p1 p2 i c1' a1 lg1 c2' a2 lg2,
+  z_spec_access getitem (List.length w) w p1 (z_spec_after w (fun _ => None) h1) i = (c1', ZRet a1, lg1) ->
+  z_spec_access getitem (List.length w) w p2 (z_spec_after w (fun _ => None) h2) i = (c2', ZRet a2, lg2) ->
+  a1 = a2.
+Proof.
+  intros w W h1 h2 p1 p2 i c1' a1 lg1 c2' a2 lg2 H1 H2.
+  assert (E : forall k a, (fun _ : nat => @None V) k = Some a -> k < List.length w /\ z_pure getitem (List.length w) w k = Some a)
+    by (intros; discriminate).
+  destruct (z_spec_access_ok w W _ _ _ _ _ _ (z_spec_after_ok w W h1 _ E) H1) as [_ V1].
+  destruct (z_spec_access_ok w W _ _ _ _ _ _ (z_spec_after_ok w W h2 _ E) H2) as [_ V2].
+  specialize (V1 a1 eq_refl). specialize (V2 a2 eq_refl). congruence.
+Qed.
+
 (* KEEP SNAPSHOT: with the constructor as translated (keep deep-copied), overwriting the caller's index objects at
    any points of the history changes nothing: the run is the atomic spec over the values the keeps had at construction *)
 Lemma z_run_events_refines : forall w, z_wf (z_snapshot w) -> forall evs st h c, z_inv (z_snapshot w) h c ->
